@@ -14,22 +14,30 @@ def sh(cmd, **kw):
     return p.returncode, p.stdout.decode(errors='replace')
 
 
-def demo():
-    rc, o = sh('PYTHONPATH=/repo/src /venv/bin/python -W ignore %s/demo.py' % out, timeout=1800)
+# A scratch worktree of /repo is used (builder agents run their own checks against /repo while this
+# runs); the checks honour OFV_REPO, so this is the same machinery the registered commands run.
+WT = '/tmp/seedrepo'
+
+
+def demo(root):
+    rc, o = sh('PYTHONPATH=%s/src /venv/bin/python -W ignore %s/demo.py' % (root, out), timeout=1800)
     return rc, o.strip().split('\n')[-1][:300]
 
 
-assert sh('git -C /repo status --porcelain')[1].strip() == '', '/repo not clean'
-res = {}
-res['demo_on_unchanged_repo'] = demo()
-rc, o = sh('git -C /repo apply %s/patch.diff' % out)
+sh('git -C /repo worktree remove --force %s' % WT)
+rc, o = sh('git -C /repo worktree add --detach %s HEAD' % WT)
+assert rc == 0, o
+res = {'repo_head': sh('git -C /repo rev-parse --short HEAD')[1].strip(),
+       'how': 'patch applied in a scratch worktree of /repo at HEAD; checks run with OFV_REPO pointing at it'}
+res['demo_on_unchanged_repo'] = demo(WT)
+rc, o = sh('git -C %s apply %s/patch.diff' % (WT, out))
 assert rc == 0, o
 try:
-    res['files_changed'] = sh('git -C /repo diff --stat')[1].strip().split('\n')
-    res['demo_with_patch'] = demo()
+    res['files_changed'] = sh('git -C %s diff --stat' % WT)[1].strip().split('\n')
+    res['demo_with_patch'] = demo(WT)
     checks = {}
     for c in [pid] + extra:
-        rc, o = sh('cd %s && ./check %s quick' % (V, c), timeout=3600)
+        rc, o = sh('cd %s && OFV_REPO=%s ./check %s quick' % (V, WT, c), timeout=3600)
         lines = [l for l in o.strip().split('\n') if l.startswith('VIOLATION') or l.startswith(c + ' ')]
         checks[c] = {'exit': rc, 'lines': lines[-3:]}
         rp = [l.split('replay=')[1].split()[0] for l in lines if l.startswith('VIOLATION')]
@@ -44,8 +52,9 @@ try:
                 checks[c]['replay_err'] = str(e)
     res['checks_with_patch'] = checks
 finally:
-    sh('git -C /repo checkout -- .')
-assert sh('git -C /repo status --porcelain')[1].strip() == ''
+    sh('git -C /repo worktree remove --force %s' % WT)
+    # regenerate the extracted tables from the unchanged tree
+    sh('cd %s && /venv/bin/python tools/extract.py && cd lean && lake build' % V)
 dst = os.path.join(V, 'seeded', name)
 os.makedirs(dst, exist_ok=True)
 for f in ('patch.diff', 'demo.py'):
